@@ -1338,7 +1338,14 @@ func (c *Conn) readLine() (string, error) {
 		}
 	}
 
-	return c.text.ReadLine()
+	line, err := c.text.ReadLine()
+	if err == nil && c.lineLimitReader.exceeded() {
+		// The buffered reader hands out what it already held of a line and
+		// drops the error when the rest of the line turns out to be too
+		// long: the beginning of such a line must not be taken for a command.
+		return "", ErrTooLongLine
+	}
+	return line, err
 }
 
 func (c *Conn) reset() {
